@@ -56,7 +56,9 @@ def effective_options(cfg):
 def check_tree(case, rec, distinct=False):
     script, cfg = case['script'], case['cfg']
     text = M.ser_script(script)
-    keys = snippet_keys(cfg.get('syntax', 'html'))
+    # case-level neutralisation (`name: name` user snippets, as for `select`): lets the implicit-name table use parents that are built-in aliases
+    neutral = dict(G.NEUTRALISE, **{n: n for n in case.get('neutralise') or []})
+    keys = snippet_keys(cfg.get('syntax', 'html')) - set(neutral)
     if any(n in keys for n in names_in(script)):
         rec.skip('name-is-snippet-key')
         return
@@ -81,7 +83,7 @@ def check_tree(case, rec, distinct=False):
             raise StopIteration()
         rec.evals()
         with guard():
-            ast = markup_abbreviation(text, Config({'syntax': cfg.get('syntax', 'html'), 'snippets': dict(G.NEUTRALISE), 'options': dict(cfg.get('options') or {})}))
+            ast = markup_abbreviation(text, Config({'syntax': cfg.get('syntax', 'html'), 'snippets': dict(neutral), 'options': dict(cfg.get('options') or {})}))
         def shape(nodes):
             return [((n.name if (n.name or n.attributes) else '#text'), shape(n.children)) for n in nodes]
         got_shape = shape(ast.children)
@@ -103,7 +105,7 @@ def check_tree(case, rec, distinct=False):
     except Exception as e:
         rec.fail(core.exc_bucket(e, 'exc:parse-tree'), '%r: %s: %s' % (text, type(e).__name__, e))
     for fmt in (False, True):
-        c = {'syntax': cfg.get('syntax', 'html'), 'snippets': dict(G.NEUTRALISE), 'options': dict(cfg.get('options') or {})}
+        c = {'syntax': cfg.get('syntax', 'html'), 'snippets': dict(neutral), 'options': dict(cfg.get('options') or {})}
         c['options']['output.format'] = fmt
         rec.evals()
         try:
@@ -147,7 +149,28 @@ def shard_random(ctx, shard, nshards, n, large):
     ctx.run_hypothesis('tree', strategy(P_LARGE if large else P_RANDOM), n, seed_key=shard + (50 if large else 0))
 
 
+def implicit_table_cases():
+    """every parent name of the documented implicit-name table — the inline elements (the model's own list, not the library's), the list/table/select
+    parents, a few block names — with nameless children `.x`, `#i`, `[t=1]`: directly below, below a repeated parent, inside a group, two levels down"""
+    el = lambda name, m=None, r=None: {'n': [name] if name else None, 'm': m or [], 'x': None, 'r': r, 'sc': False}
+    nameless = [[['.', ['x']]], [['#', ['i']]], [['a', 't', 'raw', ['1'], False]]]
+    # (`map`, `object`: the library's table has further entries — area, param — that the statement does not list; not generated, as in the other layers)
+    parents = sorted(M.INLINE - {'map', 'object'}) + sorted(M.IMPLICIT) + ['div', 'section', 'x1', 'h1', 'li', 'td', 'option', 'article', 'main']
+    k = 0
+    for pn in parents:
+        for m in nameless:
+            k += 1
+            cfg = CFGS[k % len(CFGS)]
+            nt = [pn]
+            yield {'script': [el(pn), '>', el(None, m)], 'cfg': cfg, 'neutralise': nt}
+            yield {'script': [el(pn, None, 2), '>', el(None, m), '+', el(None, m)], 'cfg': cfg, 'neutralise': nt}
+            yield {'script': [el('x1'), '>', {'g': [el(pn), '>', el(None, m)], 'r': 2}, '+', el(None, m)], 'cfg': cfg, 'neutralise': nt}
+            yield {'script': [el(pn), '>', el(None, m), '>', el(None, m), '^', el(None, m)], 'cfg': cfg, 'neutralise': nt}
+
+
 def run(ctx):
+    ctx.run_cases('tree', implicit_table_cases())
+    ctx.exhaustive('every parent of the implicit-name table (all %d inline elements of the reference list, the list/table/select parents, block names) × nameless child forms × 4 shapes' % len(M.INLINE))
     # exhaustive skeleton layers
     for n in range(1, ctx.pick(3, 4) + 1):
         ctx.run_parallel('shard_skeletons', extra=(n, 2))
@@ -158,8 +181,10 @@ def run(ctx):
     ctx.run_parallel('shard_random', extra=(ctx.pick(250, 4000), False))
     ctx.run_parallel('shard_random', extra=(ctx.pick(60, 800), True))
     if ctx.thorough or os.environ.get('VERIF_FUZZ'):
-        ctx.run_atheris('tree', ctx.pick(1500, 20000), guided=True)
+        ctx.run_atheris('tree', ctx.pick(300, 4000), guided=True)
 
 
 # coverage-guided layer (thorough tier): the script strategy under libFuzzer (vlib/fuzz.py, guided mode)
-GUIDED = {'tree': lambda: strategy(P_RANDOM)}
+# (smaller scripts than P_RANDOM: libFuzzer's byte strings make Hypothesis draw near-uniformly, i.e. much larger cases than its own size-biased search)
+P_GUIDED = G.P(max_items=6, max_depth=2, rep=0.25, rep_max=3, nameless=0.25, text=0.15, text_only=0.05, sc=0.06, groups=0.18, max_nodes=120)
+GUIDED = {'tree': lambda: strategy(P_GUIDED)}
